@@ -21,7 +21,7 @@ CLAIMED.update({
 CLAIMED.update({
  'C01': dict(
    text="PARTIAL. Proved in Lean 4 for every grid from 0 to 1, every dt and every number of steps: the discrete heterozygosity law of the neutral one-population step H(phi')(1/dt + kappa) = H(phi)/dt with kappa = (beta+1)^2/(4 beta nu) (two summations by parts over the generated coefficient formulas), the influx law (injection adds exactly dt*theta0*(1-x1)/2), the mean-frequency (martingale) law of the neutral step (the first moment sum_j w_j x_j phi_j changes only through the absorbing term at x=1, whose coefficient is the documented (1/nu)/dx_last), the two provable halves of the convergence argument - l1-STABILITY (one implicit step is a contraction in the trapezoid-weighted l1 norm for densities of any sign under the M-matrix condition, unconditionally for the neutral kernel: linearity + positivity + mass law) and CONSISTENCY (at every interior node of any non-uniform grid the discrete operator is the centred flux difference of M*phi minus the second divided difference of V*phi; the drift part is exact when V*phi is quadratic, the advective part when M is constant and phi linear or M linear and phi constant) -, the closed form of the inject-and-step recursion over n steps and its fixed point (continuum value times exactly (1-x1)), the neutral equilibrium density, and that the equilibrium constructors depend on (nu,gamma,theta0) only through gamma*nu and nu*theta0 (generated from PhiManip.py) - the units/scaling facts the property is about. NOT proved (numerical, against independent theory oracles written from the coalescent and from the closed-form equilibrium density): convergence to the exact coalescent expectation within 1.5% at a tenth of the default step on refined grids, error proportional to dt, convergence to the drift-selection equilibrium under grid refinement and from a neutral start, finiteness/non-negativity/continuity of the equilibrium density over the whole gamma box, stationarity up to a vanishing grid error.",
-   note="Trusted: Lean kernel + Mathlib; translator; correspondence of the 1-D kernel with the exact model; scipy quad/expm in the oracles. Stability and consistency of the scheme are proved; the limit argument that combines them (Lax), the convergence rate, and the identification of the diffusion's solution with coalescent theory are not formalised; thresholds: the property's own 1.5%, time-step ratio in [4,25] (observed ~10), refinement ratios calibrated on the unchanged tree (observed 3.1-6.0, accepted 2-6.5).",
+   note="Trusted: Lean kernel + Mathlib; translator; correspondence of the 1-D kernel with the exact model; scipy quad/expm in the oracles. Stability and consistency of the scheme are proved; the limit argument that combines them (Lax), the convergence rate, and the identification of the diffusion's solution with coalescent theory are not formalised; One known finding (F-01a, known_findings.json): 1.6-2.4% at a tenth of the default step right after a >=50-fold expansion covered by <=64 steps (time-step error of the dt rule), reported as KNOWN-FINDING, its recorded input re-evaluated on every run. thresholds: the property's own 1.5%, time-step ratio in [4,25] (observed ~10), refinement ratios calibrated on the unchanged tree (observed 3.1-6.0, accepted 2-6.5).",
    technique="Lean 4 proofs of the scheme's exact moment laws + numerical comparison with independent coalescent/equilibrium oracles", ref="5/C01"),
 })
 CLAIMED.update({
